@@ -66,6 +66,15 @@ def isEnd (r : Except PErr (Option JV)) : Bool :=
   match r with
   | .ok none => true
   | _ => false
+def isNeg (r : Except PErr (Option JV)) (n : Int) : Bool :=
+  match r with
+  | .ok (some (.num (.neg m))) => m == n
+  | _ => false
+theorem isNeg_eq {r : Except PErr (Option JV)} {n : Int} (h : isNeg r n = true) : r = .ok (some (.num (.neg n))) := by
+  unfold isNeg at h
+  split at h
+  · simp at h; subst h; rfl
+  · exact absurd h (by decide)
 theorem isPos_eq {r : Except PErr (Option JV)} {n : Nat} (h : isPos r n = true) : r = .ok (some (.num (.pos n))) := by
   unfold isPos at h; split at h <;> simp_all
 theorem isStr_eq {r : Except PErr (Option JV)} {s : Str} (h : isStr r s = true) : r = .ok (some (.str s)) := by
@@ -119,6 +128,18 @@ theorem integer_values_not_exact_when_spelled_as_decimal :
 theorem integer_literal_exact :
     (Reader.nextJson (Reader.ofBytes [57, 48, 48, 55, 49, 57, 57, 50, 53, 52, 55, 52, 48, 57, 57, 51])).1
       = .ok (some (.num (.pos 9007199254740993))) := isPos_eq (by decide +kernel)
+
+/-! ### the lower end of the integer range (finding F24, repaired) -/
+
+/-- the double −2^63 is an integer of the property's range `[-2^63, 2^64)`: `From<f64>` makes it the integer
+(the comparison with `i64::MIN` used to be strict, so the value stayed a double and was printed as
+`-9223372036854776000`) -/
+theorem min_i64_double_is_integer : Num.ofF64 (F64.ofInt (-(2 ^ 63))) = .neg (-(2 ^ 63)) := by decide +kernel
+
+/-- … so `-9223372036854775808.0` (the bytes below) is read as the integer −2^63 -/
+theorem min_i64_spelled_with_fraction :
+    (Reader.nextJson (Reader.ofBytes [45, 57, 50, 50, 51, 51, 55, 50, 48, 51, 54, 56, 53, 52, 55, 55, 53, 56, 48, 56, 46, 48])).1
+      = .ok (some (.num (.neg (-(2 ^ 63))))) := isNeg_eq (by decide +kernel)
 
 /-! ### non-vacuity -/
 example (o : JsonOpts) : Printable o sample := sample_printable o
